@@ -174,7 +174,7 @@ fn assumptions(prop: &str, _tier: Tier) -> Vec<&'static str> {
         "the harness's chunk walker and encoder describe the container format correctly (cross-checked: every generated base must walk completely and, where the property needs it, load)",
     ];
     match prop {
-        "C04" | "C05" => v.push("the watchdog (30 s quick / 90 s thorough per run) is the only wall-clock dependency; ops whose work estimate exceeds 2^22 blend steps are skipped and counted"),
+        "C04" | "C05" => v.push("the watchdog (90 s quick / 240 s thorough per run) is the only wall-clock dependency; ops whose work estimate exceeds 2^22 blend steps are skipped and counted"),
         "C12" => v.push("live heap = bytes requested through the global allocator on the loading thread between entry and return of AsepriteFile::read (realloc counted as free+alloc); allocator-internal overhead is not counted"),
         "C13" => v.push("end of last frame = end of the sequential chunk structure as the harness walker derives it; cross-checked against the bytes the reference load consumed"),
         "C14" => v.push("real-file wrappers (File, read_file) cannot have faults injected; they contribute equality only"),
